@@ -4,6 +4,7 @@ import (
 	"fmt"
 	"go/token"
 	"go/types"
+	"math/big"
 	"regexp"
 	"strings"
 
@@ -552,32 +553,34 @@ func (x *bitCtx) checkBlockIter(fn *ssa.Function, reverse bool) {
 			if iterCur == nil || !lf(iterNext).equal(lf(iterCur).add(lf(eRes), 1)) {
 				fail(t, -1, "across a block the running count does not grow by exactly the number of members the 64-bit iterator reported")
 			}
-			curPhi, leftPhi := false, false
-			for _, ps := range t.Cut {
-				if call.Args[2].Key() == ps.Cur.Key() {
-					curPhi = true
+			// the position and the remaining count handed to the 64-bit iterator are linear in the loop-carried
+			// variables (a cursor and a left-over variable of their own, or pos+done and n-done over the one
+			// running count): evaluated over the next iteration's values they must be the position advanced by
+			// what this block wrote, and n less everything produced so far
+			subst := func(e linForm) linForm {
+				out := e
+				for _, ps := range t.Cut {
+					k := boundKey(ps.Cur)
+					if co, has := e.coef[k]; has {
+						cur := linForm{coef: map[string]*big.Int{k: big.NewInt(1)}, c: new(big.Int)}
+						out = out.add(cur.scale(co), -1).add(lf(ps.Next).scale(co), 1)
+					}
 				}
-				if call.Args[4].Key() == ps.Cur.Key() {
-					leftPhi = true
-				}
+				return out
 			}
-			if !curPhi {
+			posE, leftE := lf(call.Args[2]), lf(call.Args[4])
+			posN, leftN := subst(posE), subst(leftE)
+			if posN.equal(posE) {
 				fail(t, -1, "the write position handed to the 64-bit iterator is not advanced from block to block: blocks overwrite each other")
+			} else if !posN.equal(posE.add(lf(eRes), 1)) {
+				fail(t, -1, "across a block the write position does not advance by the number of members written: blocks overwrite each other or leave gaps")
 			}
-			if !leftPhi {
+			if leftN.equal(leftE) {
 				fail(t, -1, "the remaining count handed to the 64-bit iterator is not recomputed from block to block: later blocks may write more than n members in total")
-			}
-			for _, ps := range t.Cut {
-				switch {
-				case call.Args[2].Key() == ps.Cur.Key(): // cursor
-					if !lf(ps.Next).equal(lf(ps.Cur).add(lf(eRes), 1)) {
-						fail(t, -1, "across a block the write position does not advance by the number of members written: blocks overwrite each other or leave gaps")
-					}
-				case call.Args[4].Key() == ps.Cur.Key(): // left
-					nSym := &Sym{Kind: KParam, Ref: fn.Params[4], Typ: fn.Params[4].Type()}
-					if iterNext != nil && !lf(ps.Next).equal(lf(nSym).add(lf(iterNext), -1)) {
-						fail(t, -1, "the remaining count handed to the next block is not n - (members produced so far)")
-					}
+			} else {
+				nSym := &Sym{Kind: KParam, Ref: fn.Params[4], Typ: fn.Params[4].Type()}
+				if iterNext != nil && !leftN.equal(lf(nSym).add(lf(iterNext), -1)) {
+					fail(t, -1, "the remaining count handed to the next block is not n - (members produced so far)")
 				}
 			}
 		}
@@ -690,7 +693,7 @@ func (x *bitCtx) checkSetUnset() {
 						for iv.Kind == KConv {
 							iv = iv.Args[0]
 						}
-						good = good && iv.Kind == KBin && iv.Op == token.QUO && iv.Args[0].Key() == p.Key()
+						good = good && iv.Kind == KBin && iv.Op == token.QUO && stripWidening(iv.Args[0]).Key() == p.Key()
 						if good {
 							d, isC := iv.Args[1].intConst()
 							good = isC && d == 64
@@ -700,7 +703,7 @@ func (x *bitCtx) checkSetUnset() {
 							a = a.Args[0]
 						}
 						if good {
-							good = a.Kind == KBin && a.Op == token.REM && a.Args[0].Key() == p.Key()
+							good = a.Kind == KBin && a.Op == token.REM && stripWidening(a.Args[0]).Key() == p.Key()
 							if good {
 								d, isC := a.Args[1].intConst()
 								good = isC && d == 64
@@ -988,4 +991,39 @@ func (c *Ctx) checkDirectionDispatch(rule string, specs []dispatchSpec) {
 			c.check(good, rule, sp.typ+"."+w.name, wf.Pos(), "", fmt.Sprintf("%s does not call %s with reverse=%v", w.name, sp.fn, w.rev))
 		}
 	}
+}
+
+// stripWidening looks through value-preserving integer conversions (int16 -> int32, uint8 -> int, ...).
+func stripWidening(s *Sym) *Sym {
+	for s.Kind == KConv && s.Name == "convert" && len(s.Args) == 1 && s.Typ != nil && s.Args[0].Typ != nil {
+		dst, ok1 := s.Typ.Underlying().(*types.Basic)
+		src, ok2 := s.Args[0].Typ.Underlying().(*types.Basic)
+		if !ok1 || !ok2 || dst.Info()&types.IsInteger == 0 || src.Info()&types.IsInteger == 0 {
+			break
+		}
+		size := func(b *types.Basic) int {
+			switch b.Kind() {
+			case types.Int8, types.Uint8:
+				return 8
+			case types.Int16, types.Uint16:
+				return 16
+			case types.Int32, types.Uint32:
+				return 32
+			case types.Int64, types.Uint64:
+				return 64
+			}
+			return 0 // int, uint, uintptr: platform dependent, not looked through
+		}
+		ds, ss := size(dst), size(src)
+		du, su := dst.Info()&types.IsUnsigned != 0, src.Info()&types.IsUnsigned != 0
+		if ds == 0 || ss == 0 {
+			break
+		}
+		if (du == su && ds >= ss) || (su && !du && ds > ss) {
+			s = s.Args[0]
+			continue
+		}
+		break
+	}
+	return s
 }
